@@ -491,6 +491,7 @@ func (s *vsSched) readyCases(a *vsActor) []int {
 }
 
 func (s *vsSched) hideAllBut(a *vsActor, keep int) {
+	var also []string
 	for _, i := range s.readyCases(a) {
 		if i == keep {
 			continue
@@ -498,7 +499,12 @@ func (s *vsSched) hideAllBut(a *vsActor, keep int) {
 		v := reflect.ValueOf(a.chans[i])
 		if x, ok := v.TryRecv(); ok {
 			a.hidden = append(a.hidden, vsHidden{ch: a.chans[i], val: x})
+			also = append(also, s.chanOf(a.chans[i]))
 		}
+	}
+	if len(also) > 0 {
+		// the communication the select is made to take, and the ones that were ready as well
+		s.line("G %s select-forced case=%s also-ready=%s", a.name, s.chanOf(a.chans[keep]), strings.Join(also, "+"))
 	}
 }
 
